@@ -24,6 +24,7 @@ func init() {
 			{ID: "C09.R5", Text: "the streams opened are those of the assigned chunk: one opener per element of the list VBucketDiscovery.Get returned (same rule as C15.R3)", Run: c15r3},
 			{ID: "C09.R6", Text: "a change of the group reaches the partition: the client's bus listener calls Stream.Rebalance on every path, also while the stream is closed or reopening (same rule as C11.R7)", Run: c11r7},
 			{ID: "C09.R7", Text: "the partition is computed from the membership in effect: the bus-fed membership implementations record every announcement unconditionally and GetInfo only reads (same rule as C11.R12)", Run: latestInfo},
+			{ID: "C09.R8", Text: "the partition is computed from a membership that exists: GetInfo returns the recorded value or waits for the first (same rule as C10.R16)", Run: infoGetters},
 			{ID: "C09.R3", Text: "purity: no globals, goroutines, map ranges; ChunkSlice calls only builtins; Get calls only GetInfo, ChunkSlice and the logger", Run: c09r3},
 		},
 	})
